@@ -2,8 +2,10 @@ package main
 
 import (
 	"fmt"
+	"go/constant"
 	"go/token"
 	"go/types"
+	"sort"
 	"strings"
 
 	"golang.org/x/tools/go/ssa"
@@ -16,27 +18,251 @@ type PathQ struct {
 	Stop func(ssa.Instruction) bool
 	Goal func(ssa.Instruction) bool
 	Edge func(b *ssa.BasicBlock, succIdx int) bool
+	// EdgeCond, when set, is asked for every conditional edge with the branch condition resolved
+	// through negations and boolean flag variables (φ of a condition) and the outcome taken;
+	// returning false prunes the edge.
+	EdgeCond func(cond ssa.Value, outcome bool) bool
 }
 
-func (q PathQ) walk(b *ssa.BasicBlock, start int, visited map[*ssa.BasicBlock]bool) ssa.Instruction {
+// walk explores paths with a small path-sensitive environment: boolean φ-nodes whose incoming
+// value on the taken edge is a constant (flag variables such as removedNow / reservationLost) and
+// boolean local cells assigned constants are tracked, and an `if` on a tracked value only follows
+// the consistent successor. States are (block, environment); the search is bounded.
+func (q PathQ) walk(b *ssa.BasicBlock, start int, _ map[*ssa.BasicBlock]bool) ssa.Instruction {
+	st := &walkState{q: q, seen: map[string]bool{}}
+	return st.run(b, start, map[ssa.Value]bool{}, map[ssa.Value]ssa.Value{})
+}
+
+type walkState struct {
+	q     PathQ
+	seen  map[string]bool
+	steps int
+}
+
+// resolveCond strips negations and follows φ aliases; returns the underlying condition and the
+// polarity under which the original condition is true.
+func resolveCond(v ssa.Value, alias map[ssa.Value]ssa.Value) (ssa.Value, bool) {
+	pol := true
+	for i := 0; i < 8; i++ {
+		if u, ok := v.(*ssa.UnOp); ok && u.Op == token.NOT {
+			v = u.X
+			pol = !pol
+			continue
+		}
+		if a, ok := alias[v]; ok && a != v {
+			v = a
+			continue
+		}
+		break
+	}
+	return v, pol
+}
+
+func envSig(b *ssa.BasicBlock, env map[ssa.Value]bool) string {
+	if len(env) == 0 {
+		return fmt.Sprintf("%d|", b.Index)
+	}
+	parts := make([]string, 0, len(env))
+	for k, v := range env {
+		parts = append(parts, fmt.Sprintf("%s=%v", k.Name(), v))
+	}
+	sort.Strings(parts)
+	return fmt.Sprintf("%d|%s", b.Index, strings.Join(parts, ","))
+}
+
+func boolConst(v ssa.Value) (bool, bool) {
+	c, ok := v.(*ssa.Const)
+	if !ok || c.Value == nil || c.Value.Kind() != constant.Bool {
+		return false, false
+	}
+	return constant.BoolVal(c.Value), true
+}
+
+// evalBool evaluates a condition under env: (value, known).
+func evalBool(v ssa.Value, env map[ssa.Value]bool) (bool, bool) {
+	for i := 0; i < 6; i++ {
+		if c, ok := boolConst(v); ok {
+			return c, true
+		}
+		if x, ok := env[v]; ok {
+			return x, true
+		}
+		switch u := v.(type) {
+		case *ssa.UnOp:
+			if u.Op == token.NOT {
+				r, ok := evalBool(u.X, env)
+				return !r, ok
+			}
+			if u.Op == token.MUL {
+				if al, ok := u.X.(*ssa.Alloc); ok {
+					if x, ok := env[al]; ok {
+						return x, true
+					}
+				}
+				return false, false
+			}
+		}
+		return false, false
+	}
+	return false, false
+}
+
+// trackableCell: a bool local whose stores are all direct stores in its own function.
+func trackableCell(al *ssa.Alloc) bool {
+	pt, ok := al.Type().Underlying().(*types.Pointer)
+	if !ok {
+		return false
+	}
+	bt, ok := pt.Elem().Underlying().(*types.Basic)
+	if !ok || bt.Kind() != types.Bool {
+		return false
+	}
+	refs := al.Referrers()
+	if refs == nil {
+		return false
+	}
+	for _, r := range *refs {
+		switch x := r.(type) {
+		case *ssa.Store:
+			if x.Addr != al {
+				return false
+			}
+		case *ssa.UnOp, *ssa.DebugRef:
+		case *ssa.MakeClosure:
+			// closure may read it; writes inside closures make it untrackable
+			f := x.Fn.(*ssa.Function)
+			for i, bnd := range x.Bindings {
+				if bnd == al {
+					if frs := f.FreeVars[i].Referrers(); frs != nil {
+						for _, fr := range *frs {
+							if st, ok := fr.(*ssa.Store); ok && st.Addr == f.FreeVars[i] {
+								return false
+							}
+							if _, ok := fr.(*ssa.MakeClosure); ok {
+								return false
+							}
+						}
+					}
+				}
+			}
+		default:
+			return false
+		}
+	}
+	return true
+}
+
+func (st *walkState) run(b *ssa.BasicBlock, start int, env map[ssa.Value]bool, alias map[ssa.Value]ssa.Value) ssa.Instruction {
+	st.steps++
+	if st.steps > 200000 {
+		return nil
+	}
 	for i := start; i < len(b.Instrs); i++ {
 		in := b.Instrs[i]
-		if q.Stop != nil && q.Stop(in) {
+		if st.q.Stop != nil && st.q.Stop(in) {
 			return nil
 		}
-		if q.Goal(in) {
+		if st.q.Goal(in) {
 			return in
+		}
+		if s, ok := in.(*ssa.Store); ok {
+			if al, ok := s.Addr.(*ssa.Alloc); ok && trackableCell(al) {
+				if v, known := evalBool(s.Val, env); known {
+					env[al] = v
+				} else {
+					delete(env, al)
+				}
+			}
+		}
+	}
+	var cond ssa.Value
+	if len(b.Instrs) > 0 {
+		if ifi, ok := b.Instrs[len(b.Instrs)-1].(*ssa.If); ok {
+			cond = ifi.Cond
 		}
 	}
 	for i, s := range b.Succs {
-		if q.Edge != nil && !q.Edge(b, i) {
+		if st.q.Edge != nil && !st.q.Edge(b, i) {
 			continue
 		}
-		if visited[s] {
+		if cond != nil && len(b.Succs) == 2 {
+			if v, known := evalBool(cond, env); known {
+				if (i == 0) != v {
+					continue
+				}
+			}
+			if st.q.EdgeCond != nil {
+				rc, pol := resolveCond(cond, alias)
+				if !st.q.EdgeCond(rc, (i == 0) == pol) {
+					continue
+				}
+			}
+		}
+		// environment on entering s from b
+		nenv := make(map[ssa.Value]bool, len(env))
+		for k, v := range env {
+			nenv[k] = v
+		}
+		predIdx := -1
+		for pi, p := range s.Preds {
+			if p == b {
+				predIdx = pi
+				break
+			}
+		}
+		nalias := make(map[ssa.Value]ssa.Value, len(alias))
+		for k, v := range alias {
+			nalias[k] = v
+		}
+		// φ-nodes are evaluated simultaneously on entry
+		upd := map[ssa.Value]*bool{}
+		for _, in := range s.Instrs {
+			phi, ok := in.(*ssa.Phi)
+			if !ok {
+				break
+			}
+			if bt, ok := phi.Type().Underlying().(*types.Basic); !ok || bt.Kind() != types.Bool {
+				continue
+			}
+			if predIdx < 0 || predIdx >= len(phi.Edges) {
+				upd[phi] = nil
+				continue
+			}
+			if v, known := evalBool(phi.Edges[predIdx], env); known {
+				vv := v
+				upd[phi] = &vv
+				delete(nalias, phi)
+			} else {
+				upd[phi] = nil
+				// the flag takes the value of a condition computed on this path
+				if a, ok := alias[phi.Edges[predIdx]]; ok {
+					nalias[phi] = a
+				} else {
+					nalias[phi] = phi.Edges[predIdx]
+				}
+			}
+		}
+		for k, v := range upd {
+			if v == nil {
+				delete(nenv, k)
+			} else {
+				nenv[k] = *v
+			}
+		}
+		sig := envSig(s, nenv)
+		if len(nalias) > 0 {
+			parts := make([]string, 0, len(nalias))
+			for k, v := range nalias {
+				parts = append(parts, k.Name()+"~"+v.Name())
+			}
+			sort.Strings(parts)
+			sig += "|" + strings.Join(parts, ",")
+		}
+		if st.seen[sig] {
 			continue
 		}
-		visited[s] = true
-		if r := q.walk(s, 0, visited); r != nil {
+		st.seen[sig] = true
+		if r := st.run(s, 0, nenv, nalias); r != nil {
 			return r
 		}
 	}
@@ -57,11 +283,11 @@ func (q PathQ) From(from ssa.Instruction) ssa.Instruction {
 			return nil
 		}
 	}
-	return q.walk(from.Block(), instrIndex(from)+1, map[*ssa.BasicBlock]bool{})
+	return q.walk(from.Block(), instrIndex(from)+1, nil)
 }
 
 func (q PathQ) FromBlock(b *ssa.BasicBlock) ssa.Instruction {
-	return q.walk(b, 0, map[*ssa.BasicBlock]bool{b: true})
+	return q.walk(b, 0, nil)
 }
 
 func (q PathQ) FromEntry(fn *ssa.Function) ssa.Instruction {
@@ -440,4 +666,24 @@ func (w *World) inGoroutineLiteral(fn *ssa.Function) bool {
 		}
 	}
 	return false
+}
+
+// PathGuarded: every path from the function entry to site traverses an edge on which a condition
+// satisfying g holds (with the polarity g asks for). Exact where dominance is not (flags assigned
+// in several switch arms, `owns := ok && a == b`).
+func PathGuarded(site ssa.Instruction, g func(Guard) bool) bool {
+	fn := site.Parent()
+	q := PathQ{
+		Goal: func(in ssa.Instruction) bool { return in == site },
+		EdgeCond: func(cond ssa.Value, outcome bool) bool {
+			// prune edges that establish the guard: a path that survives never established it
+			return !g(Guard{Cond: cond, Pol: outcome})
+		},
+	}
+	return q.FromEntry(fn) == nil
+}
+
+// Guarded: dominance-based or path-based.
+func Guarded(site ssa.Instruction, g func(Guard) bool) bool {
+	return GuardedBy(site, g) || PathGuarded(site, g)
 }
